@@ -45,6 +45,13 @@ func main() {
 	profile := fs.String("profile", "general", "operation mix")
 	budget := fs.Int("budget", 600, "executions spent on exhaustive schedule enumeration")
 	scen := fs.Int("scen", 6, "number of small scenarios whose schedules are enumerated")
+	scratch := fs.String("scratch", os.TempDir(), "scratch directory")
+	dir := fs.String("dir", "", "filechild: directory")
+	name := fs.String("name", "", "filechild: node name")
+	size := fs.Int("size", 0, "filechild: payload size")
+	pseed := fs.Int64("pseed", 0, "filechild: payload seed")
+	limit := fs.Int("limit", 0, "filechild: RLIMIT_FSIZE")
+	mode := fs.String("mode", "crash", "filechild: crash | ioerr")
 	big := fs.Int("big", 0, "every big-th case uses a large tree (0 = never)")
 	fs.Parse(os.Args[2:])
 	_ = in
@@ -79,6 +86,23 @@ func main() {
 		enc, done := openOut(*out)
 		defer done()
 		faultsFamily(*seed, *n, enc, *budget)
+	case "store":
+		enc, done := openOut(*out)
+		defer done()
+		for i := 0; i < *n; i++ {
+			storeContractRun(i+1, *seed*1000003+int64(i), *scratch, enc)
+		}
+	case "filecrash":
+		enc, done := openOut(*out)
+		defer done()
+		self, err := os.Executable()
+		if err != nil {
+			fmt.Fprintln(os.Stderr, err)
+			os.Exit(2)
+		}
+		fileCrashRuns(*seed, *n, *scratch, self, enc)
+	case "filechild":
+		fileChild(*dir, *name, *size, *pseed, *limit, *mode)
 	default:
 		fmt.Fprintln(os.Stderr, "unknown family "+fam)
 		os.Exit(2)
